@@ -94,7 +94,7 @@ package timing
 //@   label C01.popheap.root
 //@   ensures result == old(deref(h)[0].event)
 //@   label C01.popheap.len
-//@   ensures len(deref(h)) == old(len(deref(h))) - 1
+//@   ensures len(deref(h)) == old(len(deref(h))) - 1 && ref(deref(h)) == old(ref(deref(h)))
 //@   label C01.popheap.ordered
 //@   ensures heapOrdered(deref(h))
 //@   label C01.popheap.range
@@ -131,6 +131,8 @@ package timing
 //@   witness pi map = up_pi
 //@   label C01.push.len
 //@   ensures len(q.events) == old(len(q.events)) + 1 && int(q.nextSeq) == int(old(q.nextSeq)) + 1
+//@   label C01.push.ref
+//@   ensures ref(q.events) != 0 && (ref(q.events) == old(ref(q.events)) || fresh(q.events))
 //@   label C01.push.wf
 //@   ensures queueWF(q)
 //@   label C01.push.perm
@@ -151,7 +153,7 @@ package timing
 //@   label C01.pop.root
 //@   ensures result == old(q.events[0].event)
 //@   label C01.pop.len
-//@   ensures len(q.events) == old(len(q.events)) - 1 && q.nextSeq == old(q.nextSeq)
+//@   ensures len(q.events) == old(len(q.events)) - 1 && q.nextSeq == old(q.nextSeq) && ref(q.events) == old(ref(q.events))
 //@   label C01.pop.wf
 //@   ensures queueWF(q)
 //@   label C01.pop.range
@@ -161,3 +163,132 @@ package timing
 //@   label C01.pop.same
 //@   ensures forall j in 0..len(q.events) :: q.events[j] == old(q.events)[sigma[j]]
 //@   assigns q.events, elems(q.events)
+
+// ---- the serial engine ----
+// Ghost log of handler invocations (appended by the Handler.Handle contract).
+//@ ghost var handledCount int
+//@ ghost var handledTyp int
+//@ ghost var handledVal int
+//@ ghost var handledMaxTime int
+
+//@ pred engineWF(e) = e.queue != nil && e.secondaryQueue != nil && e.queue != e.secondaryQueue && queueWF(e.queue) && queueWF(e.secondaryQueue) && ref(e.queue.events) != 0 && ref(e.secondaryQueue.events) != 0 && ref(e.queue.events) != ref(e.secondaryQueue.events)
+//@ pred nonEmpty(e) = len(e.queue.events) > 0 || len(e.secondaryQueue.events) > 0
+// the queue nextEvent takes from: the primary one unless it is empty or its head is strictly later than the secondary head
+//@ pred takesPrimary(e) = len(e.queue.events) > 0 && (len(e.secondaryQueue.events) == 0 || evTime(e.queue.events[0].event) <= evTime(e.secondaryQueue.events[0].event))
+
+// RELY (trusted): an event handler may schedule any number of events (through Engine.Schedule, whose contract keeps
+// the engine well-formed and only adds entries that are not in the past) and may change any other state; it does not
+// replace the engine's queues, registry or clock. Everything a handler does to the heap is otherwise unconstrained.
+//@ iface timing.Handler.Handle(evt)
+//@   trusted
+//@   ensures handledCount == old(handledCount) + 1 && handledTyp == typeid(evt) && handledVal == ifaceval(evt)
+//@   ensures handledMaxTime == max(old(handledMaxTime), evTime(evt))
+//@   ensures caller(e).queue == old(caller(e).queue) && caller(e).secondaryQueue == old(caller(e).secondaryQueue) && caller(e).time == old(caller(e).time) && caller(e).registry == old(caller(e).registry)
+//@   ensures engineWF(caller(e))
+
+//@ ext sync/atomic.LoadInt32(addr)
+//@   trusted
+//@   pure
+//@ fn (*SerialEngine).waitForResume
+//@   trusted
+//@   assigns e.paused
+
+//@ fn (*SerialEngine).noMoreEvent
+//@   property C01 C02
+//@   requires e.queue != nil && e.secondaryQueue != nil
+//@   label C01.nomore
+//@   ensures result <==> (len(e.queue.events) == 0 && len(e.secondaryQueue.events) == 0)
+//@   assigns nothing
+
+//@ fn (*SerialEngine).nextEventTime
+//@   property C02
+//@   requires engineWF(e) && nonEmpty(e)
+//@   label C02.nexttime.head
+//@   ensures takesPrimary(e) ==> result == evTime(e.queue.events[0].event)
+//@   label C02.nexttime.head2
+//@   ensures !takesPrimary(e) ==> result == evTime(e.secondaryQueue.events[0].event)
+//@   label C02.nexttime.min.primary
+//@   ensures forall k in 0..len(e.queue.events) :: int(result) <= evTime(e.queue.events[k].event)
+//@   label C02.nexttime.min.secondary
+//@   ensures forall k in 0..len(e.secondaryQueue.events) :: int(result) <= evTime(e.secondaryQueue.events[k].event)
+//@   assigns nothing
+
+//@ fn (*SerialEngine).nextEvent
+//@   property C01 C02
+//@   requires engineWF(e) && nonEmpty(e)
+//@   witness sigma map = Pop_sigma
+//@   label C01.next.wf
+//@   ensures engineWF(e) && e.time == old(e.time) && e.queue == old(e.queue) && e.secondaryQueue == old(e.secondaryQueue) && e.registry == old(e.registry)
+//@   label C01.next.primary
+//@   ensures old(takesPrimary(e)) ==> result == old(e.queue.events[0].event) && len(e.queue.events) == old(len(e.queue.events)) - 1 && len(e.secondaryQueue.events) == old(len(e.secondaryQueue.events))
+//@   label C01.next.secondary
+//@   ensures !old(takesPrimary(e)) ==> result == old(e.secondaryQueue.events[0].event) && len(e.secondaryQueue.events) == old(len(e.secondaryQueue.events)) - 1 && len(e.queue.events) == old(len(e.queue.events))
+//@   label C01.next.min.primary
+//@   ensures forall k in 0..old(len(e.queue.events)) :: evTime(result) <= evTime(old(e.queue.events)[k].event)
+//@   label C01.next.min.secondary
+//@   ensures forall k in 0..old(len(e.secondaryQueue.events)) :: evTime(result) <= evTime(old(e.secondaryQueue.events)[k].event)
+//@   label C01.next.primaries.first
+//@   ensures !old(takesPrimary(e)) ==> (forall k in 0..old(len(e.queue.events)) :: evTime(result) < evTime(old(e.queue.events)[k].event))
+//@   label C01.next.fifo
+//@   ensures old(takesPrimary(e)) ==> (forall k in 0..old(len(e.queue.events)) :: !keyLt(evTime(old(e.queue.events)[k].event), old(e.queue.events)[k].seq, evTime(result), old(e.queue.events[0].seq)))
+//@   label C01.next.rest.primary
+//@   ensures old(takesPrimary(e)) ==> (forall j in 0..len(e.queue.events) :: e.queue.events[j] == old(e.queue.events)[sigma[j]] && 1 <= sigma[j] && sigma[j] < old(len(e.queue.events))) && (forall j in 0..len(e.secondaryQueue.events) :: e.secondaryQueue.events[j] == old(e.secondaryQueue.events)[j])
+//@   label C01.next.rest.secondary
+//@   ensures !old(takesPrimary(e)) ==> (forall j in 0..len(e.secondaryQueue.events) :: e.secondaryQueue.events[j] == old(e.secondaryQueue.events)[sigma[j]] && 1 <= sigma[j] && sigma[j] < old(len(e.secondaryQueue.events))) && (forall j in 0..len(e.queue.events) :: e.queue.events[j] == old(e.queue.events)[j])
+//@   assigns e.queue.events, e.secondaryQueue.events, elems(e.queue.events), elems(e.secondaryQueue.events)
+
+//@ fn (*SerialEngine).Schedule
+//@   property C01
+//@   requires engineWF(e) && e.queue.nextSeq < MaxUint64 && e.secondaryQueue.nextSeq < MaxUint64 && len(e.queue.events) + 1 < 1<<60 && len(e.secondaryQueue.events) + 1 < 1<<60
+//@   panics evTime(evt) < int(e.time)
+//@   witness pi map = Push_pi
+//@   label C01.schedule.wf
+//@   ensures engineWF(e) && e.time == old(e.time)
+//@   label C01.schedule.primary
+//@   ensures !evSecondary(evt) ==> len(e.queue.events) == old(len(e.queue.events)) + 1 && len(e.secondaryQueue.events) == old(len(e.secondaryQueue.events)) && (forall j in 0..len(e.queue.events) :: (pi[j] < old(len(e.queue.events)) ==> e.queue.events[j] == old(e.queue.events)[pi[j]]) && (pi[j] == old(len(e.queue.events)) ==> e.queue.events[j].event == evt && e.queue.events[j].seq == old(e.queue.nextSeq)))
+//@   label C01.schedule.secondary
+//@   ensures evSecondary(evt) ==> len(e.secondaryQueue.events) == old(len(e.secondaryQueue.events)) + 1 && len(e.queue.events) == old(len(e.queue.events)) && (forall j in 0..len(e.secondaryQueue.events) :: (pi[j] < old(len(e.secondaryQueue.events)) ==> e.secondaryQueue.events[j] == old(e.secondaryQueue.events)[pi[j]]) && (pi[j] == old(len(e.secondaryQueue.events)) ==> e.secondaryQueue.events[j].event == evt && e.secondaryQueue.events[j].seq == old(e.secondaryQueue.nextSeq)))
+//@   label C01.schedule.perm
+//@   ensures isPerm(pi, evSecondary(evt) ? len(e.secondaryQueue.events) : len(e.queue.events))
+//@   assigns e.queue.events, e.queue.nextSeq, e.secondaryQueue.events, e.secondaryQueue.nextSeq, elems(e.queue.events), elems(e.secondaryQueue.events)
+
+// One dispatch: removes the minimum (time, class, seq) entry, advances the clock to it (never backwards) and invokes
+// its handler exactly once.
+//@ fn (*SerialEngine).dispatchNext
+//@   property C01 C02
+//@   requires engineWF(e) && nonEmpty(e) && e.registry != nil
+//@   panics any
+//@   label C01.dispatch.once
+//@   ensures handledCount == old(handledCount) + 1
+//@   label C01.dispatch.min
+//@   ensures mkiface(handledTyp, handledVal) == (old(takesPrimary(e)) ? old(e.queue.events[0].event) : old(e.secondaryQueue.events[0].event))
+//@   label C01.dispatch.time
+//@   ensures int(e.time) == evTime(mkiface(handledTyp, handledVal)) && e.time >= old(e.time)
+//@   label C01.dispatch.max
+//@   ensures handledMaxTime == max(old(handledMaxTime), int(e.time))
+//@   label C01.dispatch.wf
+//@   ensures engineWF(e) && e.queue == old(e.queue) && e.secondaryQueue == old(e.secondaryQueue) && e.registry == old(e.registry)
+
+//@ fn (*SerialEngine).Run
+//@   property C01
+//@   requires engineWF(e) && e.registry != nil
+//@   panics any
+//@   label C01.run.drained
+//@   ensures len(e.queue.events) == 0 && len(e.secondaryQueue.events) == 0
+//@   loop 0: invariant engineWF(e) && e.registry != nil
+
+// RunUntil(t) uses the same step as Run and stops at the first pending event later than t.
+//@ fn (*SerialEngine).RunUntil
+//@   property C02
+//@   requires engineWF(e) && e.registry != nil
+//@   panics any
+//@   label C02.until.left.primary
+//@   ensures forall k in 0..len(e.queue.events) :: evTime(e.queue.events[k].event) > int(t)
+//@   label C02.until.left.secondary
+//@   ensures forall k in 0..len(e.secondaryQueue.events) :: evTime(e.secondaryQueue.events[k].event) > int(t)
+//@   label C02.until.handled
+//@   ensures handledMaxTime <= max(old(handledMaxTime), int(t))
+//@   label C02.until.clock
+//@   ensures (handledCount == old(handledCount) ==> e.time == old(e.time)) && (handledCount > old(handledCount) ==> int(e.time) <= int(t))
+//@   loop 0: invariant engineWF(e) && e.registry != nil && handledCount >= old(handledCount) && handledMaxTime <= max(old(handledMaxTime), int(t))
+//@   loop 0: invariant (handledCount == old(handledCount) ==> e.time == old(e.time)) && (handledCount > old(handledCount) ==> int(e.time) <= int(t))
